@@ -41,7 +41,7 @@ def check(run, project):
     guards.check(run, project, L)
     m1(run, L)
     m2_accessor(run, project, L)
-    m2_rows(run, project)
+    m2_rows(run, project, L)
     run.floor("M1", 12 * 3, "mask obligations")
 
 
@@ -201,97 +201,71 @@ def m2_accessor(run, project, L):
            module=mod, node=a, func="attributes", construct="attributes() members")
 
 
-def m2_rows(run, project):
+def m2_rows(run, project, L):
+    """pretty_attrs folded over every attribute type of L with the register value unknown: the generator is run (by the mini
+    interpreter, nothing of the repository executes) on an event whose value is a word of that type with symbolic bits; it
+    must yield exactly one row per mask, in the order attributes() gives them, at `event.path + PathNode(mask name)`, with no
+    type and no hex column, and a text of 8*size characters that shows the value's bit where the mask has a one and a dot
+    elsewhere - for all values at once.  How the text is built (zip of padded strings, arithmetic with shifts and rjust,
+    helpers) is not looked at."""
+    from ..minieval import Imprecise, Interp, NeedBit, Raised, SymStr, SymVec, TypeRef
     mod = project.module(PRETTY)
     f = mod.functions().get("pretty_attrs")
     if f is None:
         raise AnalysisError("M2: pretty_attrs not found")
-    ev = f.args.args[0].arg
-    loops = [n for n in f.body if isinstance(n, ast.For)]
-    if len(loops) != 1 or norm(loops[0].iter) != f"{ev}.value.attributes()":
-        raise AnalysisError("M2: pretty_attrs does not iterate event.value.attributes()")
-    lp = loops[0]
-    at = lp.target.id
-    joins = find(lp, "''.join((M_a if M_c else M_b for (M_m, M_v) in zip(M_mp, M_vp)))")
-    if len(joins) != 1:
-        if m2_rows_arithmetic(run, mod, f, lp, ev, at):
-            return
-        raise AnalysisError("M2: bit-row construction of pretty_attrs not recognised")
-    b = joins[0][1]
-    mn, vn = norm(b["M_m"]), norm(b["M_v"])
-    good = (norm(b["M_a"]) == "'.'" and norm(b["M_c"]) == f"{mn} == '0'" and norm(b["M_b"]) == vn) or \
-           (norm(b["M_b"]) == "'.'" and norm(b["M_c"]) in (f"{mn} == '1'", f"{mn} != '0'") and norm(b["M_a"]) == vn)
-    run.ob("M2", good, "row shows value bit under mask 1 and '.' elsewhere",
-           f"row element is `{norm(b['M_a'])} if {norm(b['M_c'])} else {norm(b['M_b'])}`", module=mod, node=joins[0][0],
-           func="pretty_attrs", construct="pretty_attrs row element")
 
-    def local_def(name):
-        d = [s for s in ast.walk(lp) if isinstance(s, ast.Assign) and is_name(s.targets[0], name)]
-        if len(d) != 1:
-            raise AnalysisError(f"M2: `{name}` in pretty_attrs is not a single-assignment local")
-        return d[0].value
+    class P:
+        def __init__(self, parts):
+            self.parts = tuple(parts)
 
-    def resolve(expr, depth=0):
-        while isinstance(expr, ast.Name) and depth < 6:
-            if expr.id in (ev, at):
-                break
-            expr = local_def(expr.id)
-            depth += 1
-        return expr
+        def __add__(self, o):
+            return P(self.parts + (o,))
+        __truediv__ = __add__
 
-    mp, vp = resolve(b["M_mp"]), resolve(b["M_vp"])
-    mm = match(mp, "f'{M_x:b}'.zfill(M_w)")
-    vm = match(vp, "f'{M_x:b}'.zfill(M_w)")
-    if mm is None or vm is None:
-        raise AnalysisError("M2: padded mask/value strings of pretty_attrs not recognised")
-    run.ob("M2", norm(resolve(mm["M_x"])) == f"{at}._value", "mask string comes from the attribute's mask",
-           f"mask string formats `{norm(resolve(mm['M_x']))}`", module=mod, node=joins[0][0], func="pretty_attrs",
-           construct="pretty_attrs mask source")
-    run.ob("M2", norm(resolve(vm["M_x"])) == f"{ev}.value._value", "value string comes from the event's value",
-           f"value string formats `{norm(resolve(vm['M_x']))}`", module=mod, node=joins[0][0], func="pretty_attrs",
-           construct="pretty_attrs value source")
-    w1, w2 = resolve(mm["M_w"]), resolve(vm["M_w"])
-    wm = match(w1, "M_s * 8")
-    if wm is None:
-        wm = match(w1, "8 * M_s")
-    okw = norm(w1) == norm(w2) and wm is not None and norm(resolve(wm["M_s"])) == f"{ev}.value._int_size"
-    run.ob("M2", okw, "both strings padded to 8*_int_size bits",
-           f"padding widths are `{norm(w1)}` / `{norm(w2)}`", module=mod, node=joins[0][0], func="pretty_attrs",
-           construct="pretty_attrs padding")
-    ys = [y for y in ast.walk(lp) if isinstance(y, (ast.Yield, ast.YieldFrom))]
-    run.ob("M2", len(ys) == 1 and ys[0]._parent._parent is lp, "exactly one row per attribute",
-           "the attribute loop does not yield exactly one row per attribute", module=mod, node=lp, func="pretty_attrs",
-           construct="pretty_attrs rows")
-    conds = [n for n in ast.walk(lp) if isinstance(n, (ast.Continue, ast.Break, ast.Return))]
-    run.ob("M2", not conds, "no attribute row is skipped", "attribute loop contains continue/break/return",
-           module=mod, node=lp, func="pretty_attrs", construct="pretty_attrs skip")
+        def __eq__(self, o):
+            return isinstance(o, P) and self.parts == o.parts
 
+        def __hash__(self):
+            return hash(self.parts)
 
-def m2_rows_arithmetic(run, mod, f, lp, ev, at):
-    """second accepted family: the row is built arithmetically as
-         f"{field:0<w>b}{'.' * shift}".rjust(<8*size>, '.')
-    with field = (value & mask) >> shift, shift = trailing zeros of the mask, <w> = number of bits of the mask's span.
-    The zero padding to the field's width is essential: without it the leading zero bits of a field are swallowed by
-    the dot padding (those bits are then shown in no row)."""
-    rj = [c for c in ast.walk(lp) if isinstance(c, ast.Call) and isinstance(c.func, ast.Attribute) and c.func.attr == "rjust"
-          and isinstance(c.func.value, ast.JoinedStr) and len(c.args) == 2 and norm(c.args[1]) == "'.'"]
-    if len(rj) != 1:
-        return False
-    js = rj[0].func.value
-    fvs = [v for v in js.values if isinstance(v, ast.FormattedValue)]
-    if len(fvs) != 2:
-        return False
-    fld = fvs[0]
-    spec = fld.format_spec
-    spec_txt = norm(spec)[2:-1] if spec is not None else ""
-    padded = spec is not None and spec_txt.startswith("0") and spec_txt.endswith("b") and len(spec.values) >= 2
-    run.ob("M2", padded, "arithmetic bit row: the field is zero-padded to its width",
-           f"the field is formatted with `{{...:{spec_txt}}}`: leading zero bits of a multi-bit field are not printed, so the dot padding "
-           "takes their place and those bits appear in no row", module=mod, node=rj[0], func="pretty_attrs",
-           construct="pretty_attrs field width")
-    run.ob("M2", norm(fvs[1].value).replace(" ", "").startswith("'.'*"), "arithmetic bit row: dots below the field",
-           f"suffix is `{norm(fvs[1].value)}`", module=mod, node=rj[0], func="pretty_attrs", construct="pretty_attrs suffix")
-    ys = [y for y in ast.walk(lp) if isinstance(y, (ast.Yield, ast.YieldFrom))]
-    run.ob("M2", len(ys) == 1, "exactly one row per attribute", "the attribute loop does not yield exactly one row per attribute",
-           module=mod, node=lp, func="pretty_attrs", construct="pretty_attrs rows")
-    return True
+        def __repr__(self):
+            return "path" + "".join(f"/{x}" for x in self.parts)
+    n = 0
+    for k, c, bf in bitfield_types(L):
+        size = L.int_size(c)
+        width = 8 * size
+        masks = sorted(bf.masks.items(), key=lambda kv: kv[1])
+        attrs = [TypeRef("mask", attrs={"_value": m_, "_name": nm, "_details": None}) for nm, m_ in masks]
+        word = TypeRef(k, attrs={"_value": SymVec.unknown(width), "_int_size": size, "attributes": lambda attrs=attrs: list(attrs)})
+        event = TypeRef("event", attrs={"value": word, "path": P(()), "type": TypeRef(k)})
+        it = Interp({"format": lambda *a: ("row",) + tuple(a), "PathNode": lambda name=None, **kw: ("node", name if name is not None else kw.get("name"))},
+                    module_tree=mod.tree, max_steps=400000)
+        try:
+            it.call(f, [event])
+            rows = list(it.yields)
+        except Raised as r:
+            rows = f"raises {r.cls}"
+        except NeedBit:
+            rows = "a row that depends on the value in another way than showing its bits"
+        except Imprecise as e_:
+            rows = f"the row text has no fixed shape: {e_}"
+        want = []
+        for nm, m_ in masks:
+            text_ = [("v", i) if (m_ >> i) & 1 else "." for i in range(width - 1, -1, -1)]
+            want.append(("row", None, P((("node", nm),)), None, SymStr(text_) if any(isinstance(x, tuple) for x in text_) else "".join(text_)))
+        n += 1
+        ok = rows == want
+        why = ""
+        if not ok:
+            if isinstance(rows, str):
+                why = rows
+            elif len(rows) != len(want):
+                why = f"{len(rows)} rows for {len(want)} masks"
+            else:
+                j = next(i for i, (a_, b_) in enumerate(zip(rows, want)) if a_ != b_)
+                why = f"row {j} ({masks[j][0]}, mask {masks[j][1]:#x}) is {rows[j]!r}, required {want[j]!r}"
+        run.ob("M2", ok, f"{k}: one row per mask, value bits under mask ones and dots elsewhere",
+               f"the bit rows of a {k} word are wrong: {why} (v = a bit of the value, . = a dot; a row must show exactly the bits of its "
+               "mask, at their positions in the word, padded to the full width)", module=mod, node=f, func="pretty_attrs",
+               construct="pretty_attrs rows")
+    run.require(n >= 12, f"M2: bit rows folded over only {n} attribute types")
